@@ -761,3 +761,51 @@ pub fn t_i64_ratio_f32(a: i128, b: i128) -> i128 {
     ((a as i64) as f32 / (10u64.pow((b as u32) % 19)) as f32).to_bits() as i128
 }
 
+#[inline(never)]
+pub fn t_sub_unsigned(a: i128, b: i128) -> Option<i128> {
+    let _ = b;
+    (a as isize).checked_sub_unsigned(b as usize).map(|x| x as i128)
+}
+
+#[inline(never)]
+pub fn t_add_unsigned(a: i128, b: i128) -> Option<i128> {
+    let _ = b;
+    a.checked_add_unsigned(b as u128)
+}
+
+#[inline(never)]
+pub fn t_ilog2(a: i128, b: i128) -> i128 {
+    let _ = b;
+    (a.unsigned_abs().max(1)).ilog2() as i128
+}
+
+#[inline(never)]
+pub fn t_checked_ilog2(a: i128, b: i128) -> Option<i128> {
+    let _ = b;
+    a.checked_ilog2().map(|k| k as i128)
+}
+
+#[inline(never)]
+pub fn t_rev_map(a: i128, b: i128) -> i128 {
+    let _ = b;
+    { let mut x = a.unsigned_abs(); let mut n: i128 = 0; for step in (0..4u32).rev().map(|i| 1u32 << i) { let p = 5u128.pow(step); if x % p == 0 { x /= p; n += step as i128; } } n.wrapping_add(b & 1) }
+}
+
+#[inline(never)]
+pub fn t_and_signed_low(a: i128, b: i128) -> i128 {
+    let _ = b;
+    a & 0xff
+}
+
+#[inline(never)]
+pub fn t_and_signed_mid(a: i128, b: i128) -> i128 {
+    let _ = b;
+    a & 0xff00
+}
+
+#[inline(never)]
+pub fn t_and_signed_1(a: i128, b: i128) -> i128 {
+    let _ = b;
+    (a & 1).wrapping_add(b & 7)
+}
+
